@@ -150,6 +150,15 @@ class Spelling:
             self.features.add(feature)
         return options[i]
 
+    def shuffled(self, d):
+        """same mapping, items in another order (the key order of a spec mapping carries no meaning)"""
+        if self.rng is None or len(d) < 2 or self.rng.random() < 0.5:
+            return d
+        items = list(d.items())
+        self.rng.shuffle(items)
+        self.features.add("key-order")
+        return dict(items)
+
     def case(self, s):
         if self.rng is None or self.rng.random() < 0.4:
             return s
@@ -190,7 +199,7 @@ def arg_spec(a, sp, level=0):
             # an escaped mapping is returned as it is by the parser: nothing inside it is
             # looked at, so nothing inside it is escaped
             return escape_literal_mapping({k: arg_spec(v, sp, 99) for k, v in a.items()})
-        return {k: arg_spec(v, sp, level + 1) for k, v in a.items()}
+        return sp.shuffled({k: arg_spec(v, sp, level + 1) for k, v in a.items()})
     return a
 
 
@@ -267,13 +276,13 @@ def leaf_spec(term, sp):
         form = sp.pick(["list", "dict"], "kw-mapping")
         if form == "list" and list(full) == names[: len(full)]:
             return {key: [arg_spec(full[n], sp, 1) for n in names if n in full]}
-        return {key: {n: arg_spec(v, sp, 1) for n, v in full.items()}}
+        return {key: sp.shuffled({n: arg_spec(v, sp, 1) for n, v in full.items()})}
     if sig[0] == "varpos":
         return {key: [arg_spec(a, sp, 1) for a in args]}
     if sig[0] == "varkw":
         if looks_like_path_spec(kwargs):
             return {key: escape_literal_mapping({k: arg_spec(v, sp, 99) for k, v in kwargs.items()})}
-        return {key: {k: arg_spec(v, sp, 1) for k, v in kwargs.items()}}
+        return {key: sp.shuffled({k: arg_spec(v, sp, 1) for k, v in kwargs.items()})}
     raise ValueError(sig)
 
 
